@@ -68,11 +68,18 @@ theorem gen_wire_types :
        ("sptrI", (Ty.sptr (.int 64 true)).wire), ("sptrD", (Ty.sptr .f64).wire), ("sptrS", (Ty.sptr .str).wire),
        ("agg", (Ty.agg false .nil).wire), ("aggTrivial", (Ty.agg false .nil).wire)] := by decide
 
-/-- bool and the 8/16/32-bit integers go through `Varint32`, the 64-bit integers and enums through `Varint64`
-(`intVarintBits`, `enumVarintBits` in the model). -/
+/-- bool and the 8/16/32-bit integers are written, read and sized through `Varint32`, the 64-bit integers and enums
+(of whatever underlying width) through `Varint64`, and what was read is stored by a plain `static_cast<T>(uvalue)`
+(`intVarintBits`, `enumVarintBits`, `scalarRead` in the model). -/
 theorem gen_varint_kinds :
     varint32Kinds = ["bool", "int8_t", "int16_t", "int32_t", "uint8_t", "uint16_t", "uint32_t"] ∧
-    varint64Kinds = ["int64_t", "uint64_t"] ∧ enumVarintBits = 64 ∧
+    varint64Kinds = ["int64_t", "uint64_t"] ∧ enumVarintBits = 64 ∧ enumReadBits = 64 ∧ enumSizeBits = 64 ∧
+    scalarIO =
+      [("bool", 32, 32, 32, "static_cast<T>(uvalue)"), ("int8_t", 32, 32, 32, "static_cast<T>(uvalue)"),
+       ("int16_t", 32, 32, 32, "static_cast<T>(uvalue)"), ("int32_t", 32, 32, 32, "static_cast<T>(uvalue)"),
+       ("uint8_t", 32, 32, 32, "static_cast<T>(uvalue)"), ("uint16_t", 32, 32, 32, "static_cast<T>(uvalue)"),
+       ("uint32_t", 32, 32, 32, "static_cast<T>(uvalue)"), ("int64_t", 64, 64, 64, "static_cast<T>(uvalue)"),
+       ("uint64_t", 64, 64, 64, "static_cast<T>(uvalue)"), ("enum", 64, 64, 64, "static_cast<T>(uvalue)")] ∧
     intVarintBits 8 = 32 ∧ intVarintBits 16 = 32 ∧ intVarintBits 32 = 32 ∧ intVarintBits 64 = 64 := by decide
 
 /-- Aggregate macro rules: an empty member is omitted; only COMPLEX members have a per-field size cache, and it is
